@@ -78,6 +78,7 @@ inductive XE where
   | len (e : XE)
   | gt (a b : XE)
   | filterField (e : XE) (col : String)  -- [… for r in e if r["col"]]  (only its truthiness is used)
+  | anyField (e : XE) (col : String)     -- any([r["col"] for r in e])
   | freshMailboxId                     -- generate_mailbox_id()
   | mailboxObj (e : XE)                -- self._mailboxes[e]: the object IS its id in the object-free model
   deriving Repr
@@ -92,6 +93,10 @@ inductive XS where
   | if_ (c : XE) (t e : List XS)
   /-- `[v =] <target>.<meth>(args)`: a sibling method; `target` = the Mailbox object a method of Mailbox is called on -/
   | call (into : Option String) (meth : String) (target : Option XE) (args : List XE)
+  /-- `for v in X.execute(stmt, args).fetchall(): body` -/
+  | forExec (v : String) (stmt : String) (args : List XE) (body : List XS)
+  /-- `for (send_f, stop_f) in self._listeners.values(): stop_f()` + `self._listeners = {}` (Mailbox.close) -/
+  | stopListeners
   | commit
   | ucommit
   | raise_ (cls : String)
@@ -103,6 +108,7 @@ mutual
 def XS.stmts : XS → List String
   | .exec _ _ n _ => [n]
   | .if_ _ t e => XS.stmtsL t ++ XS.stmtsL e
+  | .forExec _ n _ b => n :: XS.stmtsL b
   | _ => []
 def XS.stmtsL : List XS → List String
   | [] => []
@@ -114,6 +120,7 @@ mutual
 def XS.calls : XS → List String
   | .call _ m _ _ => [m]
   | .if_ _ t e => XS.callsL t ++ XS.callsL e
+  | .forExec _ _ _ b => XS.callsL b
   | _ => []
 def XS.callsL : List XS → List String
   | [] => []
@@ -173,6 +180,9 @@ def eval (ctx : Ctx) (s : Sys) (env : Env) : XE → SV
     | _, _ => .none
   | .filterField e col => match eval ctx s env e with
     | .rows l => .rows (l.filter (fun r => truthy (rowField r col)))
+    | _ => .none
+  | .anyField e col => match eval ctx s env e with
+    | .rows l => .bool (l.any (fun r => truthy (rowField r col)))
     | _ => .none
   | .freshMailboxId => .str ctx.fresh
   | .mailboxObj e => eval ctx s env e
@@ -255,6 +265,34 @@ def stmtSem (s : Sys) (stmt : String) (args : List SV) : ExecRes :=
     (match args with | [.int npid] => .ok (s.modDb (·.delNpSidesOf (asNat npid))) .none | _ => .raised s "TypeError")
   else if stmt = "AppNamespace_release_nameplate__delete_nameplates_0" then
     (match args with | [.int npid] => .ok (s.modDb (·.delNameplate (asNat npid))) .none | _ => .raised s "TypeError")
+  -- Mailbox.close
+  else if stmt = "Mailbox_close__select_mailboxes_0" then
+    (match args with | [.str app, .str mb] => .ok s (optRow .mb (s.db.findMailbox app mb)) | _ => .raised s "TypeError")
+  else if stmt = "Mailbox_close__select_mailbox_sides_0" then
+    (match args with | [.str mb, .str side] => .ok s (optRow .mbs (s.db.findMbSide mb side)) | _ => .raised s "TypeError")
+  else if stmt = "Mailbox_close__update_mailbox_sides_0" then
+    (match args with
+     | [.bool false, .none, .str mb, .str side] => .ok (s.modDb (·.closeSide mb side Option.none)) .none
+     | [.bool false, .str mood, .str mb, .str side] => .ok (s.modDb (·.closeSide mb side (some mood))) .none
+     | _ => .raised s "TypeError")
+  else if stmt = "Mailbox_close__select_mailbox_sides_1" then
+    (match args with | [.str mb] => .ok s (.rows ((s.db.mbSidesOf mb).map .mbs)) | _ => .raised s "TypeError")
+  else if stmt = "Mailbox_close__select_nameplates_0" then
+    (match args with
+     | [.str app, .str mb] => .ok s (.rows ((s.db.nameplatesOfMailbox app mb).map .np))
+     | _ => .raised s "TypeError")
+  else if stmt = "Mailbox_close__select_nameplate_sides_0" then
+    (match args with | [.int npid] => .ok s (.rows ((s.db.npSidesOf (asNat npid)).map .nps)) | _ => .raised s "TypeError")
+  else if stmt = "Mailbox_close__delete_nameplate_sides_0" then
+    (match args with | [.str app, .str mb] => .ok (s.modDb (·.delNpSidesOfMailbox app mb)) .none | _ => .raised s "TypeError")
+  else if stmt = "Mailbox_close__delete_nameplates_0" then
+    (match args with | [.str app, .str mb] => .ok (s.modDb (·.delNameplatesOfMailbox app mb)) .none | _ => .raised s "TypeError")
+  else if stmt = "Mailbox_close__delete_messages_0" then
+    (match args with | [.str mb] => .ok (s.modDb (·.delMessagesOf mb)) .none | _ => .raised s "TypeError")
+  else if stmt = "Mailbox_close__delete_mailbox_sides_0" then
+    (match args with | [.str mb] => .ok (s.modDb (·.delMbSidesOf mb)) .none | _ => .raised s "TypeError")
+  else if stmt = "Mailbox_close__delete_mailboxes_0" then
+    (match args with | [.str mb] => .ok (s.modDb (·.delMailbox mb)) .none | _ => .raised s "TypeError")
   else .raised s "NotInTable"
 
 /-- what `cursor.<fetch>` of a statement's result is -/
@@ -289,6 +327,12 @@ def calleeCtx (ctx : Ctx) (target : Option SV) : Ctx :=
   | some (.str m) => { ctx with mailbox := m }
   | _ => ctx
 
+/-- one iteration of a `for` loop (`run` = the loop body): an exception or a `return` ends the loop -/
+def loopStepWith (run : St → Res) (v : String) (acc : Res) (r : RowV) : Res :=
+  match acc with
+  | .normal st' => run ⟨st'.s, setVar st'.env v (.row r)⟩
+  | other => other
+
 mutual
 def execS (callee : Callee) (ctx : Ctx) : XS → St → Res
   | .assign v e, st => .normal ⟨st.s, setVar st.env v (eval ctx st.s st.env e)⟩
@@ -301,6 +345,13 @@ def execS (callee : Callee) (ctx : Ctx) : XS → St → Res
     (match callee meth (calleeCtx ctx (target.map (eval ctx st.s st.env))) (args.map (eval ctx st.s st.env)) st.s with
      | .ok s v => .normal (bindInto st into s v)
      | .raised s cls => .exc s cls)
+  | .forExec v stmt args body, st =>
+    (match stmtSem st.s stmt (args.map (eval ctx st.s st.env)) with
+     | .ok s (.rows l) =>
+       l.foldl (loopStepWith (execL callee ctx body) v) (.normal ⟨s, st.env⟩)
+     | .ok s _ => .exc s "TypeError"
+     | .raised s cls => .exc s cls)
+  | .stopListeners, st => .normal ⟨st.s.stopListeners ctx.app ctx.mailbox, st.env⟩
   | .commit, st => .normal ⟨st.s.commit, st.env⟩
   | .ucommit, st => .normal ⟨st.s.ucommit, st.env⟩
   | .raise_ cls, st => .exc st.s cls
@@ -326,7 +377,11 @@ def runMethod (callee : Callee) (m : Method) (ctx : Ctx) (args : List SV) (s : S
 /-- the NpSide rows of a `fetchall()` result -/
 def npSideRows (l : List RowV) : List NpSide := l.filterMap (fun r => match r with | .nps x => some x | _ => Option.none)
 
-/-- methods that are primitives here: `_summarize_nameplate_and_store(side_rows, delete_time, pruned)` is
+/-- the MbSide rows of a `fetchall()` result -/
+def mbSideRows (l : List RowV) : List MbSide := l.filterMap (fun r => match r with | .mbs x => some x | _ => Option.none)
+
+/-- methods that are primitives here: `_summarize_mailbox_and_store(for_nameplate, side_rows, delete_time, pruned)` is
+    `storeMailboxUsage`; `_summarize_nameplate_and_store(side_rows, delete_time, pruned)` is
     `storeNameplateUsage` (its summary function is tied in Tie/Summ.lean, its INSERT in Tie/UsageSql.lean);
     `false` = the IndexError of an empty `side_rows` -/
 def callee0 : Callee := fun meth ctx args s =>
@@ -336,6 +391,10 @@ def callee0 : Callee := fun meth ctx args s =>
        (match s.storeNameplateUsage ctx.app (npSideRows l) t pruned with
         | (s1, true) => .ok s1 .none
         | (s1, false) => .raised s1 "IndexError")
+     | _ => .raised s "TypeError")
+  else if meth = "AppNamespace._summarize_mailbox_and_store" then
+    (match args with
+     | [.bool forNp, .rows l, .int t, .bool pruned] => .ok (s.storeMailboxUsage ctx.app forNp (mbSideRows l) t pruned) .none
      | _ => .raised s "TypeError")
   else .raised s "NoSuchMethod"
 
